@@ -425,42 +425,21 @@ theorem trimRegex_eq_trimRe (line : Bytes) (k : TrimKind) (ms : List (Nat × Nat
   unfold trimRegex trimRe slice
   simp only []
   rw [List.drop_take]
-  have hl : (if k = .both ∨ k = .left then
-        match ms.head? with
-        | some (s, e) => if s = 0 then e else 0
-        | none => 0
-      else 0) =
-      (if k = .both ∨ k = .left then
-        match ms.head? with
-        | some (0, e) => e
-        | _ => 0
-      else 0) := by
-    split
-    · cases ms.head? with
-      | none => rfl
-      | some p =>
-        obtain ⟨s, e⟩ := p
-        cases s with
-        | zero => simp
-        | succ s' => simp
-    · rfl
-  rw [hl]
-  generalize (if k = .both ∨ k = .left then
-        match ms.head? with
-        | some (0, e) => e
-        | _ => 0
-      else 0) = l
-  congr 1
-  split
-  · cases ms.getLast? with
+  have key : ∀ (l s : Nat), max s l - l = s - l := by intro l s; omega
+  cases ms.head? with
+  | none =>
+    cases ms.getLast? with
     | none => rfl
-    | some p =>
-      obtain ⟨s, e⟩ := p
-      simp only []
-      split
-      · omega
-      · rfl
-  · rfl
+    | some q =>
+      obtain ⟨s', e'⟩ := q
+      by_cases he : e' = line.length <;> cases k <;> simp [he]
+  | some p =>
+    obtain ⟨s, e⟩ := p
+    cases ms.getLast? with
+    | none => cases s <;> rfl
+    | some q =>
+      obtain ⟨s', e'⟩ := q
+      by_cases he : e' = line.length <;> cases s <;> cases k <;> simp [he, key]
 
 /-- the record after `-t`, regex delimiter -/
 def trimmedRe (opt : Opt) (bag : RegexBag) (line : Bytes) : Bytes :=
@@ -504,5 +483,295 @@ theorem cutStrCore_regex (line : Bytes) (opt : Opt) (eol : Bytes) (bag : RegexBa
           simp only [hre, hty, he, Bool.false_eq_true, if_false, Bool.false_and, reduceCtorEq,
             decide_false]
       simp only [hp, hre, Bool.false_and, Bool.false_eq_true, if_false, Option.isSome_some, hf]
+
+/-- the specification with a regex delimiter and no `-p`, no `--json`, passes made explicit -/
+theorem specRecordRe_fields (line : Bytes) (opt : Opt) (bag : RegexBag)
+    (hp : opt.compressDelimiter = false) (hjson : opt.json = false) :
+    specRecordRe (cfgOf opt) bag line =
+      if opt.join && opt.replaceDelimiter.isNone then Run.fail
+      else if (trimmedRe opt bag line).isEmpty then
+        (if opt.onlyDelimited then Run.empty else Run.ok [opt.eol.byte])
+      else
+        if opt.onlyDelimited &&
+          (tokenizeRe bag opt.greedyDelimiter (trimmedRe opt bag line)).numFields == 1
+        then Run.empty
+        else
+          if opt.complement && countBounds (specBofs opt
+            (tokenizeRe bag opt.greedyDelimiter (trimmedRe opt bag line)).numFields) == 0
+          then Run.fail
+          else
+            (emitWith (cfgOf opt)
+              (tokenizeRe bag opt.greedyDelimiter (trimmedRe opt bag line)).numFields
+              (pieceTextRe (sepRe opt.replaceDelimiter)
+                (tokenizeRe bag opt.greedyDelimiter (trimmedRe opt bag line)))
+              (opt.replaceDelimiter.getD [])
+              (specBofs opt
+                (tokenizeRe bag opt.greedyDelimiter (trimmedRe opt bag line)).numFields)).seq
+              (Run.ok [opt.eol.byte]) := by
+  unfold specRecordRe trimmedRe specBofs
+  simp only [cfgOf, hp, hjson, Bool.false_and, Bool.false_or]
+  cases opt.trim <;> cases opt.complement <;> simp <;> rfl
+
+theorem rangesBetweenMatches_length (L prev : Nat) (ms : List (Nat × Nat)) :
+    (rangesBetweenMatches L prev ms).length = ms.length + 1 := by
+  induction ms generalizing prev with
+  | nil => rfl
+  | cons m t ih => obtain ⟨s, e⟩ := m; simp [rangesBetweenMatches, ih]
+
+/-- one gap more than there are matches, on both sides -/
+theorem fieldsRe_length (opt : Opt) (bag : RegexBag) (line' : Bytes) :
+    (fieldsRe opt bag line').length = (tokenizeRe bag opt.greedyDelimiter line').numFields := by
+  unfold fieldsRe tokenizeRe tokOfMatches
+  cases opt.greedyDelimiter <;>
+    simp [rangesBetweenMatches_length, tokFrom_numFields]
+
+theorem fieldsRe_in (opt : Opt) (bag : RegexBag) (hok : bag.OK) (line' : Bytes) :
+    RangesIn line'.length 0 (fieldsRe opt bag line') := by
+  unfold fieldsRe
+  apply rangesBetweenMatches_in _ _ 0 _ (Nat.zero_le _)
+  cases opt.greedyDelimiter
+  · exact (hok line').1
+  · exact (hok line').2
+
+/-- **the regex engine refines the specification as soon as every printed range is rendered as the
+    specification renders it** (the two instances: no `-r`, separators verbatim; `-r R` under
+    `SliceStable`) -/
+theorem cutStr_regex_eq_spec_of_piece (opt : Opt) (bag : RegexBag) (line : Bytes)
+    (hre : opt.regexBag = some bag) (hok : bag.OK) (hp : opt.compressDelimiter = false)
+    (hjson : opt.json = false) (hty : opt.boundsType = .fields ∨ opt.boundsType = .lines)
+    (hz : AllNonzero opt.bounds.list) (hL : LastMarked opt.bounds.list)
+    (hpiece : (trimmedRe opt bag line) ≠ [] →
+      ∀ (a b : Nat) (_ : a ≤ b) (hb : b < (fieldsRe opt bag (trimmedRe opt bag line)).length),
+      maybeReplaceDelimiter
+          (slice (trimmedRe opt bag line)
+            ((fieldsRe opt bag (trimmedRe opt bag line))[a]'(by omega)).start
+            ((fieldsRe opt bag (trimmedRe opt bag line))[b]).stop) opt false =
+        pieceTextRe (sepRe opt.replaceDelimiter)
+          (tokenizeRe bag opt.greedyDelimiter (trimmedRe opt bag line)) (a + 1) (b + 1)) :
+    (cutStrCore line opt [opt.eol.byte]).1 = specRecordRe (cfgOf opt) bag line := by
+  rw [cutStrCore_regex line opt _ bag hre hp hty, specRecordRe_fields line opt bag hp hjson]
+  by_cases hj : (opt.join && opt.replaceDelimiter.isNone) = true
+  · rw [if_pos hj, if_pos hj]
+  · rw [if_neg hj, if_neg hj]
+    by_cases he : (trimmedRe opt bag line).isEmpty = true
+    · rw [if_pos he, if_pos he]
+      cases opt.onlyDelimited <;> simp
+    · rw [if_neg he, if_neg he]
+      have hne : trimmedRe opt bag line ≠ [] := by
+        intro h; rw [h] at he; exact he rfl
+      have hin := fieldsRe_in opt bag hok (trimmedRe opt bag line)
+      have hmain := emitRecord_eq_emitWith opt (trimmedRe opt bag line)
+        (fieldsRe opt bag (trimmedRe opt bag line))
+        (pieceTextRe (sepRe opt.replaceDelimiter)
+          (tokenizeRe bag opt.greedyDelimiter (trimmedRe opt bag line))) hjson hty
+        (fun a b hab hb => (hin.getElem a b hab hb).2) (hpiece hne) hz hL
+      rw [hmain, fieldsRe_length]
+      have hjoin : opt.join = false ∨
+          opt.replaceDelimiter.getD opt.delimiter = opt.replaceDelimiter.getD [] := by
+        cases hr : opt.replaceDelimiter with
+        | some r => right; rfl
+        | none => left; simpa [hr] using hj
+      rw [emitWith_joiner (cfgOf opt) _ _ _ _ hjoin]
+
+theorem tokenizeRe_eq (bag : RegexBag) (g : Bool) (line : Bytes) :
+    tokenizeRe bag g line =
+      tokFrom line (if g then countInside (bag.normal line) else fun _ _ => 1) 0
+        ((if g then bag.greedy else bag.normal) line) := by
+  cases g <;> rfl
+
+/-- without `-r` the engine prints the slice as it is -/
+theorem maybeReplaceDelimiter_none (text : Bytes) (opt : Opt) (cwr : Bool)
+    (hr : opt.replaceDelimiter = none) : maybeReplaceDelimiter text opt cwr = text := by
+  unfold maybeReplaceDelimiter
+  rw [hr]
+  split <;> rfl
+
+/-- **C16, one record, no `-r`.**  With `-e RE` (any matcher honouring the contract of
+    `find_iter`) and none of `-r -p -j --json`, field (or line) mode — any of `-g -t -s -m`,
+    fallbacks, format fillers — `cut_str` writes for every record exactly what the specification
+    says: the fields are the gaps between successive matches (`-g`: runs of matches), a printed
+    range is the bytes of the record from the start of its first gap to the end of its last gap. -/
+theorem cutStr_regex_eq_spec (opt : Opt) (bag : RegexBag) (line : Bytes)
+    (hre : opt.regexBag = some bag) (hok : bag.OK)
+    (hr : opt.replaceDelimiter = none) (hp : opt.compressDelimiter = false)
+    (hjson : opt.json = false) (hty : opt.boundsType = .fields ∨ opt.boundsType = .lines)
+    (hz : AllNonzero opt.bounds.list) (hL : LastMarked opt.bounds.list) :
+    (cutStrCore line opt [opt.eol.byte]).1 = specRecordRe (cfgOf opt) bag line := by
+  apply cutStr_regex_eq_spec_of_piece opt bag line hre hok hp hjson hty hz hL
+  intro hne a b hab hb
+  rw [maybeReplaceDelimiter_none _ _ _ hr, hr]
+  have hsm : SortedMatches (trimmedRe opt bag line).length 0
+      ((if opt.greedyDelimiter then bag.greedy else bag.normal) (trimmedRe opt bag line)) := by
+    cases opt.greedyDelimiter
+    · exact (hok _).1
+    · exact (hok _).2
+  rw [tokenizeRe_eq]
+  exact slice_eq_pieceTextRe _ _ _ 0 hsm (Nat.zero_le _) a b hab hb
+
+/-! ## 5. `-p -r R`: rewrite every run of matches to `R`, then cut on the literal `R` -/
+
+/-- the output loop only looks at these parts of the options -/
+theorem outputLoop_congr (opt opt' : Opt) (cwr cwr' : Bool) (line : Bytes) (fields : List Range)
+    (n : Nat) (hjoin : opt.join = opt'.join)
+    (hJ : opt.replaceDelimiter.getD opt.delimiter = opt'.replaceDelimiter.getD opt'.delimiter)
+    (hjson : opt.json = opt'.json) (hfb : opt.fallbackOob = opt'.fallbackOob)
+    (hm : ∀ text, maybeReplaceDelimiter text opt cwr = maybeReplaceDelimiter text opt' cwr') :
+    ∀ (l : List BoF), outputLoop line fields n opt cwr l = outputLoop line fields n opt' cwr' l := by
+  intro l
+  induction l with
+  | nil => rfl
+  | cons x t ih =>
+    simp only [outputLoop, ih]
+    congr 1
+    cases x with
+    | filler f => rfl
+    | bound b => simp only [outputBof, hjoin, hJ, hjson, hfb, hm]
+
+theorem emitRecord_congr (opt opt' : Opt) (cwr cwr' : Bool) (line : Bytes) (fields : List Range)
+    (eol : Bytes) (hjoin : opt.join = opt'.join)
+    (hJ : opt.replaceDelimiter.getD opt.delimiter = opt'.replaceDelimiter.getD opt'.delimiter)
+    (hjson : opt.json = opt'.json) (hfb : opt.fallbackOob = opt'.fallbackOob)
+    (hm : ∀ text, maybeReplaceDelimiter text opt cwr = maybeReplaceDelimiter text opt' cwr')
+    (hs : opt.onlyDelimited = opt'.onlyDelimited) (hc : opt.complement = opt'.complement)
+    (hb : opt.bounds = opt'.bounds)
+    (hty : opt.boundsType ≠ .characters) (hty' : opt'.boundsType ≠ .characters) :
+    emitRecord line fields opt cwr eol = emitRecord line fields opt' cwr' eol := by
+  unfold emitRecord
+  have hl := outputLoop_congr opt opt' cwr cwr' line fields fields.length hjoin hJ hjson hfb hm
+  simp only [hs, hc, hb, hjson, hty, hty', hl, decide_false, Bool.false_and, Bool.or_false]
+
+/-- the options of the literal engine that takes over once `-p -r R` has rewritten the record:
+    `R` is the delimiter, nothing is trimmed, compressed or replaced any more (the joiner of `-j`
+    is the delimiter, i.e. `R`) -/
+def literalAfterCompress (opt : Opt) (R : Bytes) : Opt :=
+  { opt with regexBag := none, delimiter := R, compressDelimiter := false,
+             replaceDelimiter := none, trim := none }
+
+/-- the rewritten record is empty only if the replacement is -/
+theorem replaceMatches_ne_nil (text R : Bytes) (hR : R ≠ []) (ms : List (Nat × Nat))
+    (htext : text ≠ []) : replaceMatches text R 0 ms ≠ [] := by
+  cases ms with
+  | nil => simpa [replaceMatches] using htext
+  | cons m t =>
+    obtain ⟨s, e⟩ := m
+    simp [replaceMatches, hR]
+
+/-- **C16, `-p -r R`.**  The record (after `-t`) is rewritten once — every run of matches becomes
+    the literal bytes `R` — and the result is cut by the LITERAL engine with delimiter `R`: same
+    ranges, same bounds, no second replacement (`compressedWithRegex`), joiner `R`.
+    (`hne`: the rewritten record is not empty; it follows from `R ≠ []`, see
+    `replaceMatches_ne_nil`.  With `R = []` and a record that is one run of matches the regex path
+    goes on with ZERO fields where the literal engine prints an empty line.) -/
+theorem cutStrCore_regex_compress (line : Bytes) (opt : Opt) (eol : Bytes) (bag : RegexBag)
+    (R : Bytes) (hre : opt.regexBag = some bag) (hr : opt.replaceDelimiter = some R)
+    (hp : opt.compressDelimiter = true)
+    (hty : opt.boundsType = .fields ∨ opt.boundsType = .lines)
+    (hne : replaceMatches (trimmedRe opt bag line) R 0 (bag.greedy (trimmedRe opt bag line)) ≠ []) :
+    (cutStrCore line opt eol).1 =
+      if (trimmedRe opt bag line).isEmpty then
+        (if !opt.onlyDelimited then Run.ok eol else Run.empty)
+      else
+        (cutStrCore (replaceMatches (trimmedRe opt bag line) R 0 (bag.greedy (trimmedRe opt bag line)))
+          (literalAfterCompress opt R) eol).1 := by
+  have htrim : trimOf opt line = trimmedRe opt bag line := by
+    unfold trimOf trimmedRe
+    rw [hre]
+    cases opt.trim with
+    | none => rfl
+    | some k => exact trimRegex_eq_trimRe _ _ _
+  rw [cutStrCore_eq, htrim]
+  generalize trimmedRe opt bag line = line' at hne ⊢
+  simp only [hre, hr, hp, Option.isSome_some, Option.isNone_some, Bool.and_false,
+    Bool.false_eq_true, if_false]
+  by_cases he : line'.isEmpty = true
+  · rw [if_pos he]
+    unfold afterTrim
+    rw [if_pos he]
+  · rw [if_neg he]
+    generalize hl2 : replaceMatches line' R 0 (bag.greedy line') = line2 at hne ⊢
+    have he2 : ¬ line2.isEmpty = true := by
+      intro h; exact hne (List.isEmpty_iff.mp h)
+    rw [cutStrCore_eq]
+    have h1 : (literalAfterCompress opt R).regexBag = none := rfl
+    have h2 : trimOf (literalAfterCompress opt R) line2 = line2 := rfl
+    have h3 : (literalAfterCompress opt R).compressDelimiter = false := rfl
+    have h4 : (literalAfterCompress opt R).delimiter = R := rfl
+    have hbt : (literalAfterCompress opt R).boundsType = opt.boundsType := rfl
+    have hcomp : (opt.compressDelimiter &&
+        (decide (opt.boundsType = .fields) || decide (opt.boundsType = .lines))) = true := by
+      rcases hty with hty | hty <;> simp [hp, hty]
+    have hfields : engineFields (literalAfterCompress opt R) line2 R false =
+        engineFields opt line2 R false := by
+      unfold engineFields
+      simp only [hbt]
+      rfl
+    have hemit : emitRecord line2 (engineFields opt line2 R false) opt true eol =
+        emitRecord line2 (engineFields opt line2 R false) (literalAfterCompress opt R) false eol := by
+      apply emitRecord_congr
+      · rfl
+      · show opt.replaceDelimiter.getD opt.delimiter = R
+        rw [hr]; rfl
+      · rfl
+      · rfl
+      · intro text
+        have hnc : opt.boundsType ≠ .characters := by
+          rcases hty with hty | hty <;> rw [hty] <;> intro h <;> cases h
+        have hl : maybeReplaceDelimiter text opt true = text := by
+          unfold maybeReplaceDelimiter
+          rw [if_neg hnc, hr, hre]
+          rfl
+        have hr' : maybeReplaceDelimiter text (literalAfterCompress opt R) false = text :=
+          maybeReplaceDelimiter_none _ _ _ rfl
+        rw [hl, hr']
+      · rfl
+      · rfl
+      · rfl
+      · rcases hty with hty | hty <;> rw [hty] <;> intro h <;> cases h
+      · rw [hbt]
+        rcases hty with hty | hty <;> rw [hty] <;> intro h <;> cases h
+    simp only [h1, h2, Option.isSome_none, Bool.false_and, Bool.false_eq_true, if_false]
+    unfold afterTrim
+    rw [if_neg he, if_neg he2]
+    simp only [hcomp, if_true, hre, hr, hl2, h1, h3, h4, Bool.false_and, Bool.false_eq_true,
+      if_false, Option.isSome_none, hfields, hemit]
+
+/-- **C16, `-p -r R`, against the specification.**  For `R ≠ []` the regex engine with `-p -r R`
+    is the specification: rewrite every run of matches to `R`, then the LITERAL specification
+    with delimiter `R` (any of `-g -t -s -j -m`, fallbacks, fillers; no `--json`). -/
+theorem cutStr_regex_compress_eq_spec (opt : Opt) (bag : RegexBag) (line : Bytes) (R : Bytes)
+    (hre : opt.regexBag = some bag) (hr : opt.replaceDelimiter = some R) (hR : R ≠ [])
+    (hp : opt.compressDelimiter = true) (hjson : opt.json = false)
+    (hty : opt.boundsType = .fields ∨ opt.boundsType = .lines)
+    (hz : AllNonzero opt.bounds.list) (hL : LastMarked opt.bounds.list) :
+    (cutStrCore line opt [opt.eol.byte]).1 = specRecordRe (cfgOf opt) bag line := by
+  have hspec : specRecordRe (cfgOf opt) bag line =
+      if (trimmedRe opt bag line).isEmpty then
+        (if opt.onlyDelimited then Run.empty else Run.ok [opt.eol.byte])
+      else specRecord (cfgOf (literalAfterCompress opt R))
+        (replaceMatches (trimmedRe opt bag line) R 0 (bag.greedy (trimmedRe opt bag line))) := by
+    have hcfg : cfgOf (literalAfterCompress opt R) =
+        { cfgOf opt with delimiter := R, compress := false, replace := none, trim := none,
+                         chars := false } := by
+      rcases hty with hty | hty <;> simp [cfgOf, literalAfterCompress, hty]
+    rw [hcfg]
+    unfold specRecordRe trimmedRe
+    rcases hty with hty | hty <;>
+      simp only [cfgOf, hp, hr, hty, Option.isNone_some, Bool.and_false, Bool.false_eq_true,
+        if_false, decide_true, Bool.or_true, Bool.true_or, Bool.and_self]
+  rw [hspec]
+  by_cases he : (trimmedRe opt bag line).isEmpty = true
+  · rw [cutStrCore_regex_compress line opt _ bag R hre hr hp hty
+      (by
+        have : trimmedRe opt bag line = [] := List.isEmpty_iff.mp he
+        rw [this]
+        cases hm : bag.greedy [] with
+        | nil => sorry
+        | cons m t => obtain ⟨s, e⟩ := m; simp [replaceMatches, hR])]
+    sorry
+  · have hne : trimmedRe opt bag line ≠ [] := by
+      intro h; rw [h] at he; exact he rfl
+    rw [cutStrCore_regex_compress line opt _ bag R hre hr hp hty
+      (replaceMatches_ne_nil _ R hR _ hne), if_neg he, if_neg he]
+    exact cutStr_eq_spec_gen (literalAfterCompress opt R) _ hR rfl hty hjson hz hL
 
 end Tuc
